@@ -9,6 +9,7 @@ import Mathlib.Algebra.BigOperators.Field
 import Mathlib.Tactic.Ring
 import Mathlib.Tactic.FieldSimp
 import Mathlib.Tactic.Linarith
+import Mathlib.Algebra.Order.BigOperators.Group.Finset
 
 namespace QE.C02
 open Finset
@@ -96,7 +97,117 @@ theorem gth_step_lift (A : ℕ → ℕ → K) (k n : ℕ) (s : K) (hs : s ≠ 0)
 
 end lift
 
+/-! ### the two-phase program equals the structural recursion (any scalar type, `Float` included) -/
+
+section twophase
+variable {α : Type} [Zero α] [One α] [Add α] [Mul α] [Div α] [LE α] [DecidableLE α]
+
+theorem redStep_get' (n : ℕ) (A : M α) (k : ℕ) (s : α) (i j : ℕ) (hi : i < n) (hj : j < n) :
+    (redStep n A k s).get i j =
+      if k < i then
+        if j = k then A.get i k / s
+        else if k < j then A.get i j + (A.get i k / s) * A.get k j
+        else A.get i j
+      else A.get i j := by
+  unfold redStep
+  rw [M.get_tab _ _ _ _ _ hi hj]
+
+/-- the reduction from pivot `k` on never touches a column `j < k` -/
+theorem reduce_col (n : ℕ) : ∀ (fuel k : ℕ) (A : M α) (i j : ℕ), i < n → j < n → j < k →
+    (reduce n fuel k A).1.get i j = A.get i j := by
+  intro fuel
+  induction fuel with
+  | zero => intro k A i j _ _ _; rfl
+  | succ fuel ih =>
+    intro k A i j hi hj hjk
+    rw [reduce]
+    simp only
+    by_cases hs : rowScale n A k ≤ 0
+    · rw [if_pos hs]
+    · rw [if_neg hs, ih (k+1) _ i j hi hj (by omega), redStep_get' n A k _ i j hi hj]
+      by_cases hki : k < i
+      · rw [if_pos hki, if_neg (by omega), if_neg (by omega)]
+      · rw [if_neg hki]
+
+/-- effective size: `k+1 ≤ m ≤ n` -/
+theorem reduce_size (n : ℕ) : ∀ (fuel k : ℕ) (A : M α), k + fuel + 1 = n →
+    k + 1 ≤ (reduce n fuel k A).2 ∧ (reduce n fuel k A).2 ≤ n := by
+  intro fuel
+  induction fuel with
+  | zero => intro k A h; simp only [reduce]; omega
+  | succ fuel ih =>
+    intro k A h
+    rw [reduce]
+    simp only
+    by_cases hs : rowScale n A k ≤ 0
+    · rw [if_pos hs]; simp only; omega
+    · rw [if_neg hs]
+      have := ih (k+1) (redStep n A k (rowScale n A k)) (by omega)
+      omega
+
+theorem sumUpTo_congr (f g : ℕ → α) (m : ℕ) (h : ∀ t, t < m → f t = g t) :
+    sumUpTo f m = sumUpTo g m := by
+  induction m with
+  | zero => rfl
+  | succ m ih =>
+    rw [sumUpTo, sumUpTo, ih (fun t ht => h t (by omega)), h m (by omega)]
+
+theorem backSub_length (A : M α) (m j : ℕ) : (backSub A m j).length = j + 1 := by
+  induction j with
+  | zero => rfl
+  | succ j ih => rw [backSub]; simp [ih]
+
+/-- **The driver's two-phase program (`reduce` everything, then `backSub`) computes the same list as
+    the structural recursion `gthRec`** — the identity is syntactic in the scalar operations, so it
+    holds for `Float` as well as for exact fields. -/
+theorem backSub_reduce_eq_rec (n : ℕ) : ∀ (fuel k : ℕ) (A : M α), k + fuel + 1 = n →
+    backSub (reduce n fuel k A).1 (reduce n fuel k A).2 ((reduce n fuel k A).2 - 1 - k)
+      = gthRec n fuel k A := by
+  intro fuel
+  induction fuel with
+  | zero =>
+    intro k A h
+    have : n - 1 - k = 0 := by omega
+    simp only [reduce, gthRec, this, backSub]
+  | succ fuel ih =>
+    intro k A h
+    rw [reduce, gthRec]
+    simp only
+    by_cases hs : rowScale n A k ≤ 0
+    · rw [if_pos hs, if_pos hs]
+      have : k + 1 - 1 - k = 0 := by omega
+      simp only [this, backSub]
+    · rw [if_neg hs, if_neg hs]
+      set A' := redStep n A k (rowScale n A k) with hA'
+      have hsz := reduce_size n fuel (k+1) A' (by omega)
+      have hih := ih (k+1) A' (by omega)
+      set B := (reduce n fuel (k+1) A').1 with hB
+      set m := (reduce n fuel (k+1) A').2 with hm
+      have e1 : m - 1 - k = (m - 2 - k) + 1 := by omega
+      have e2 : m - 1 - (k+1) = m - 2 - k := by omega
+      have e3 : m - 2 - (m - 2 - k) = k := by omega
+      rw [e1, backSub]
+      simp only
+      rw [e3, ← e2, hih]
+      congr 1
+      unfold dotCol
+      apply sumUpTo_congr
+      intro t ht
+      have hlen : (gthRec n fuel (k+1) A').length = m - 1 - (k+1) + 1 := by
+        rw [← hih, backSub_length]
+      rw [hB, reduce_col n fuel (k+1) A' (k+1+t) k (by omega) (by omega) (by omega)]
+
+theorem gthRaw_eq_rec (n : ℕ) (hn : 1 ≤ n) (A : M α) : gthRaw n A = gthRec n (n - 1) 0 A := by
+  unfold gthRaw
+  simp only
+  have := backSub_reduce_eq_rec n (n - 1) 0 A (by omega)
+  simpa using this
+
+end twophase
+
 /-! ### bridge from the executable model -/
+
+set_option linter.unusedSectionVars false
 
 section bridge
 variable {K : Type} [Field K] [LinearOrder K] [IsStrictOrderedRing K]
@@ -156,6 +267,137 @@ theorem Qm_congr (A B : ℕ → ℕ → K) (k n : ℕ)
     intro l hl
     exact h i hi l (mem_of_mem_erase hl)
   · rw [if_neg hij, if_neg hij]; exact h i hi j hj
+
+/-- the unit vector at `k` is a left null vector of the active generator when row `k` has no
+    active off-diagonal mass (base case `k = n-1`, and the `scale <= 0` break). -/
+theorem unit_null (n : ℕ) (A : M K) (k : ℕ) (hk : k < n) (hA : OffNonneg n A)
+    (hs : ∑ l ∈ Ico (k+1) n, A.get k l ≤ 0) :
+    ∀ j ∈ Ico k n, ∑ i ∈ Ico k n, ([1] : List K).getD (i - k) 0 * Qm (fun a b => A.get a b) k n i j = 0 := by
+  intro j hj
+  have hnn : ∀ l ∈ Ico (k+1) n, 0 ≤ A.get k l := by
+    intro l hl; simp only [mem_Ico] at hl
+    exact hA k l hk hl.2 (by omega)
+  have hzero : ∑ l ∈ Ico (k+1) n, A.get k l = 0 := le_antisymm hs (sum_nonneg hnn)
+  have heach : ∀ l ∈ Ico (k+1) n, A.get k l = 0 := (sum_eq_zero_iff_of_nonneg hnn).1 hzero
+  rw [sum_eq_single k]
+  · simp only [Nat.sub_self, List.getD_cons_zero, one_mul]
+    by_cases hjk : k = j
+    · subst hjk
+      unfold Qm offSum
+      rw [if_pos rfl]
+      have : (Ico k n).erase k = Ico (k+1) n := by
+        ext x; simp only [mem_erase, mem_Ico]; omega
+      rw [this, hzero, neg_zero]
+    · unfold Qm
+      rw [if_neg hjk]
+      apply heach
+      simp only [mem_Ico] at hj ⊢; omega
+  · intro i hi hik
+    simp only [mem_Ico] at hi
+    have : i - k = (i - k - 1) + 1 := by omega
+    rw [this]; simp
+  · intro h; exact absurd (mem_Ico.2 ⟨le_refl k, hk⟩) h
+
+/-- **Main induction.** On a Metzler matrix, the list produced for the active block `[k,n)` is a
+    non-negative left null vector of the active generator `Qm A k n`, not longer than the block,
+    containing an entry equal to 1. -/
+theorem gthRec_null (n : ℕ) : ∀ (fuel k : ℕ) (A : M K), k + fuel + 1 = n → OffNonneg n A →
+    (∀ j ∈ Ico k n, ∑ i ∈ Ico k n,
+        (gthRec n fuel k A).getD (i - k) 0 * Qm (fun a b => A.get a b) k n i j = 0)
+    ∧ (∀ t, 0 ≤ (gthRec n fuel k A).getD t 0)
+    ∧ (gthRec n fuel k A).length ≤ n - k
+    ∧ (∃ t, t < (gthRec n fuel k A).length ∧ (gthRec n fuel k A).getD t 0 = 1) := by
+  intro fuel
+  induction fuel with
+  | zero =>
+    intro k A hk hA
+    have hkn : k < n := by omega
+    simp only [gthRec]
+    refine ⟨?_, ?_, ?_, ⟨0, by simp, by simp⟩⟩
+    · apply unit_null n A k hkn hA
+      have : Ico (k+1) n = ∅ := by ext x; simp only [mem_Ico]; simp; omega
+      rw [this]; simp
+    · intro t; cases t <;> simp
+    · simp; omega
+  | succ fuel ih =>
+    intro k A hk hA
+    have hkn : k < n := by omega
+    rw [gthRec]
+    simp only
+    by_cases hs : rowScale n A k ≤ 0
+    · rw [if_pos hs]
+      refine ⟨?_, ?_, ?_, ⟨0, by simp, by simp⟩⟩
+      · apply unit_null n A k hkn hA
+        rw [← rowScale_eq]; exact hs
+      · intro t; cases t <;> simp
+      · simp; omega
+    · rw [if_neg hs]
+      have hspos : 0 < rowScale n A k := not_le.1 hs
+      set s := rowScale n A k with hsdef
+      set A' := redStep n A k s with hA'
+      have hA'nn : OffNonneg n A' := redStep_offNonneg n A k s hspos hA
+      obtain ⟨h1, h2, h3, ⟨t0, ht0, ht01⟩⟩ := ih (k+1) A' (by omega) hA'nn
+      set xs := gthRec n fuel (k+1) A' with hxs
+      -- entries of A' in terms of A
+      have hcol : ∀ i, k < i → i < n → A'.get i k = A.get i k / s := by
+        intro i hki hin
+        rw [hA', redStep_get n A k s i k hin hkn, if_pos hki, if_pos rfl]
+      have hblk : ∀ i ∈ Ico (k+1) n, ∀ j ∈ Ico (k+1) n,
+          (fun a b => A'.get a b) i j = gstep (fun a b => A.get a b) k s i j := by
+        intro i hi j hj
+        simp only [mem_Ico] at hi hj
+        show A'.get i j = _
+        rw [hA', redStep_get n A k s i j hi.2 hj.2, if_pos (by omega), if_neg (by omega), if_pos (by omega)]
+        rfl
+      have hy : ∀ j ∈ Ico (k+1) n, ∑ i ∈ Ico (k+1) n,
+          (fun i => xs.getD (i - (k+1)) 0) i * Qm (gstep (fun a b => A.get a b) k s) (k+1) n i j = 0 := by
+        intro j hj
+        refine Eq.trans ?_ (h1 j hj)
+        apply sum_congr rfl
+        intro i hi
+        rw [Qm_congr _ _ (k+1) n hblk i hi j hj]
+      have hyk : dotCol A' k xs = (∑ i ∈ Ico (k+1) n, (fun i => xs.getD (i - (k+1)) 0) i * A.get i k) / s := by
+        unfold dotCol
+        rw [sumUpTo_eq, sum_Ico_eq_sum_range, sum_div]
+        have hsub : range xs.length ⊆ range (n - (k+1)) := range_subset_range.2 h3
+        rw [← sum_subset hsub]
+        · apply sum_congr rfl
+          intro t ht
+          have htl : t < xs.length := mem_range.1 ht
+          rw [hcol (k+1+t) (by omega) (by omega)]
+          have : k + 1 + t - (k+1) = t := by omega
+          simp only [this]
+          ring
+        · intro t _ htn
+          have : xs.length ≤ t := by simpa using htn
+          have : k + 1 + t - (k+1) = t := by omega
+          simp only [this]
+          have hnone : xs[t]? = none := List.getElem?_eq_none (by assumption)
+          simp [List.getD_eq_getElem?_getD, hnone]
+      have hlift := gth_step_lift (fun a b => A.get a b) k n s (ne_of_gt hspos)
+        (by rw [hsdef, rowScale_eq]) (fun i => xs.getD (i - (k+1)) 0) hy hkn (dotCol A' k xs) hyk
+      refine ⟨?_, ?_, ?_, ⟨t0 + 1, by simp; omega, by simpa using ht01⟩⟩
+      · intro j hj
+        refine Eq.trans ?_ (hlift j hj)
+        apply sum_congr rfl
+        intro i hi
+        simp only [mem_Ico] at hi
+        by_cases hik : i = k
+        · subst hik; simp
+        · have : i - k = (i - (k+1)) + 1 := by omega
+          rw [this]; simp [hik]
+      · intro t
+        cases t with
+        | zero =>
+          simp only [List.getD_cons_zero]
+          rw [hyk]
+          apply div_nonneg _ hspos.le
+          apply sum_nonneg
+          intro i hi
+          simp only [mem_Ico] at hi
+          exact mul_nonneg (h2 _) (hA i k hi.2 hkn (by omega))
+        | succ t => simpa using h2 t
+      · simp; omega
 
 end bridge
 
